@@ -174,3 +174,54 @@ Proof. reflexivity. Qed.
 
 Lemma bind_guard_true {B} tag (f : unit -> M B) : bind (guard tag true) f = f tt.
 Proof. exact (bind_ret tt f). Qed.
+
+(* ------------------------------------------------------------------ *)
+(* satq Q m P: m returns normally with a value satisfying P, and every event
+   of its trace satisfies Q.  The workhorse of result + load-safety proofs. *)
+Definition satq {A} (Q : event -> Prop) (m : M A) (P : A -> Prop) : Prop :=
+  sat m (fun v t => P v /\ Forall Q t).
+
+Lemma satq_bind {A B} (Q : event -> Prop) (m : M A) (f : A -> M B) (P1 : A -> Prop) (P2 : B -> Prop) :
+  satq Q m P1 -> (forall v, P1 v -> satq Q (f v) P2) -> satq Q (bind m f) P2.
+Proof.
+  intros H1 H2. eapply sat_bind; [exact H1|].
+  intros v t1 [Hv Ht1]. eapply sat_weaken; [apply H2; exact Hv|].
+  cbn beta. intros w t2 [Hw Ht2]. split; [exact Hw|]. apply Forall_app. split; assumption.
+Qed.
+
+Lemma satq_ret {A} (Q : event -> Prop) (a : A) (P : A -> Prop) : P a -> satq Q (ret a) P.
+Proof. intros H. apply sat_ret. split; [exact H|constructor]. Qed.
+
+Lemma satq_weaken {A} (Q : event -> Prop) (m : M A) (P P' : A -> Prop) :
+  satq Q m P -> (forall v, P v -> P' v) -> satq Q m P'.
+Proof. intros H HP. eapply sat_weaken; [exact H|]. cbn beta. intros v t [A1 A2]. split; auto. Qed.
+
+Lemma satq_lift {A} (Q : event -> Prop) (r : res A) v (P : A -> Prop) : r = Ok v -> P v -> satq Q (lift r) P.
+Proof. intros -> H. apply sat_ret. split; [exact H|constructor]. Qed.
+
+Lemma satq_guard (Q : event -> Prop) tag b (P : unit -> Prop) : b = true -> P tt -> satq Q (guard tag b) P.
+Proof. intros -> H. apply sat_ret. split; [exact H|constructor]. Qed.
+
+Lemma satq_load (Q : event -> Prop) r l off w al (P : list N -> Prop) :
+  off + w <= length l -> Q (Load r off w al) -> P (slice l off w) -> satq Q (load r l off w al) P.
+Proof.
+  intros Hle HQ HP. apply sat_load; [exact Hle|]. split; [exact HP|]. constructor; [exact HQ|constructor].
+Qed.
+
+Lemma satq_emit (Q : event -> Prop) e (P : unit -> Prop) : Q e -> P tt -> satq Q (emit e) P.
+Proof. intros HQ HP. apply sat_emit. split; [exact HP|]. constructor; [exact HQ|constructor]. Qed.
+
+(* canonical forms for eapply satq_bind *)
+Lemma satq_load_eq (Q : event -> Prop) r l off w al :
+  off + w <= length l -> Q (Load r off w al) ->
+  satq Q (load r l off w al) (fun v => v = slice l off w).
+Proof. intros. apply satq_load; auto. Qed.
+
+Lemma satq_lift_eq {A} (Q : event -> Prop) (r : res A) v : r = Ok v -> satq Q (lift r) (fun w => w = v).
+Proof. intros H. eapply satq_lift; [exact H|reflexivity]. Qed.
+
+Lemma satq_guard_eq (Q : event -> Prop) tag b : b = true -> satq Q (guard tag b) (fun _ => True).
+Proof. intros H. apply satq_guard; [exact H|exact I]. Qed.
+
+Lemma satq_fst {A} (Q : event -> Prop) (m : M A) P : satq Q m P -> exists v, fst m = Ok v /\ P v /\ Forall Q (snd m).
+Proof. intros (v & H1 & H2 & H3). exists v. auto. Qed.
